@@ -954,6 +954,52 @@ fn main() {
         }
         std::process::exit(0);
       }
+      "dealer_tx_wait" => {
+        // dealer_tx_wait <sndtimeo_ms> <hold_ms> <cycles>: public API. DEALER (SNDTIMEO as given) connected to a ROUTER that
+        // reads everything. Task A sends two-frame messages frame by frame - send(part, MORE), sleep <hold_ms>, send(last) -
+        // back to back, <cycles> times. Task B starts 50 ms later and calls send_multipart once; how long that call takes
+        // and what it returns is printed. With SNDTIMEO < 2 * hold it must be over (Ok or Timeout) about SNDTIMEO after it began.
+        let sndtimeo: i32 = it.next().unwrap().parse().unwrap();
+        let hold: u64 = it.next().unwrap().parse().unwrap();
+        let cycles: usize = it.next().unwrap().parse().unwrap();
+        let rt = tokio::runtime::Builder::new_multi_thread().worker_threads(4).enable_all().build().unwrap();
+        let (ms, res) = rt.block_on(async move {
+          let ctx = rzmq::Context::new().unwrap();
+          let router = ctx.socket(rzmq::SocketType::Router).unwrap();
+          router.set_option(rzmq::socket::options::RCVTIMEO, 200i32).await.unwrap();
+          router.bind("tcp://127.0.0.1:0").await.unwrap();
+          let ep = String::from_utf8(router.get_option(rzmq::socket::options::LAST_ENDPOINT).await.unwrap()).unwrap();
+          let dealer = ctx.socket(rzmq::SocketType::Dealer).unwrap();
+          dealer.set_option(rzmq::socket::options::SNDTIMEO, sndtimeo).await.unwrap();
+          dealer.connect(&ep).await.unwrap();
+          tokio::time::sleep(Duration::from_millis(300)).await;
+          let reader = tokio::spawn(async move {
+            loop {
+              let _ = router.recv_multipart().await;
+            }
+          });
+          let d2 = dealer.clone();
+          let a = tokio::spawn(async move {
+            for i in 0..cycles {
+              let mut part = rzmq::Msg::from_vec(vec![b'a', i as u8]);
+              part.set_flags(rzmq::MsgFlags::MORE);
+              d2.send(part).await.unwrap();
+              tokio::time::sleep(Duration::from_millis(hold)).await;
+              d2.send(rzmq::Msg::from_vec(vec![b'z', i as u8])).await.unwrap();
+            }
+          });
+          tokio::time::sleep(Duration::from_millis(50)).await;
+          let t0 = Instant::now();
+          let r = dealer.send_multipart(vec![rzmq::Msg::from_vec(b"B".to_vec())]).await;
+          let ms = t0.elapsed().as_millis();
+          a.abort();
+          reader.abort();
+          (ms, format!("{:?}", r))
+        });
+        println!("dealer_tx_wait sndtimeo={} hold={} cycles={} send_multipart returned {} after {} ms{}", sndtimeo, hold, cycles, res, ms,
+                 if sndtimeo > 0 && ms > (sndtimeo as u128) + 100 { "  WAITED-LONGER-THAN-SNDTIMEO" } else { "" });
+        std::process::exit(0);
+      }
       "pub_stalled_subscriber_inproc" => {
         // public API, inproc transport: PUB (SNDHWM 1) with two SUB sockets subscribed to everything; one (RCVHWM 1) never
         // calls recv, the other reads. Messages are published until one publish call does not return within 2 s.
